@@ -267,6 +267,13 @@ fn probe(env: &mut Env, fc: &FileCtx, dmg: &'static str, class: Class, damaged: 
             }
         }
     }
+    if class == Class::WholeTrunc && dlen < 16 {
+        // the read path on a tiny remnant: an error, never a panic
+        if let Err(pi) = guarded(|| managed.open_read(p).map(|fs| fs.len())) {
+            let sig = panic_sig(&pi, dlen, "ManagedDirectory::open_read");
+            env.viol(sig, witness(json!({"panic_at": pi.location, "panic": pi.message})));
+        }
+    }
     if class == Class::Footer {
         // reading must not panic, and "clean" must mean the original body
         match guarded(|| managed.open_read(p).map(|fs| fs.read_bytes().map(|b| b.as_slice().to_vec()))) {
